@@ -1,5 +1,13 @@
 """aws/aws_sign.c (C19): implementation vs the extracted model (which interprets the regenerated
-format strings) and vs the independent SigV4 spec evaluated at the timestamp the implementation returned."""
+format strings) and vs the independent SigV4 spec evaluated at the timestamp the implementation returned.
+
+Instants (the interposed value of time()):
+  0 <= t < Y10K                  theorems C19_*: success, result = spec at the returned timestamp
+  Y10K <= t                      theorem C19_far_future_rejected: failure (date[9] too small); sampled
+                                 far below gmtime_r's limit (beyond it gmtime_r returns NULL)
+  Y1000 <= t < 0, t != -1        no theorem; success expected, result still compared with the spec
+  t = -1, t < Y1000              no theorem (time() error value; glibc's unpadded %Y gives a shorter
+                                 date or, below year -999, failure): implementation vs model only"""
 import os
 import vlib
 
@@ -8,6 +16,15 @@ PRINTABLE = "".join(chr(c) for c in range(33, 127))
 TIMES = [0, 1, 86399, 86400, 951782399, 951782400, 951868799, 951868800, 1078099199, 1709251199,
          1709251200, 2147483647, 2147483648, 4102444799, 4102444800, 253402300799, 253402300798,
          1700000000, 1735689599]
+Y10K = 253402300800        # 10000-01-01T00:00:00Z
+Y1000 = -30610224000       # 1000-01-01T00:00:00Z
+# outside the theorems' range: first instants of year 10000; time()'s error value and its neighbours;
+# around year 1000, year 1, year 0, year -1, years -999/-1000 (glibc: "%Y" unpadded, '-' for negatives)
+TIMES_FAR = [Y10K, Y10K + 1, Y10K + 86399, 253402300800 + 31622400, 10 ** 12, 10 ** 15, 2 ** 55]
+TIMES_NEG = [-1, -1, -2, -86400, -86401, -2208988800, Y1000, Y1000 + 1]
+TIMES_PRE1000 = [Y1000 - 1, Y1000 - 86400, -59011459200, -62135596800, -62135596801, -62167219200,
+                 -62167219201, -62198755200, -93692592000, -93692592001, -93724128000, -93724128001,
+                 -10 ** 12, -2 ** 55]
 
 
 def hx(s):
@@ -20,7 +37,7 @@ def rstr(r, alphabet, lo=0, hi=24):
     return "".join(r.choice(alphabet) for _ in range(n))
 
 
-def gen(ctx):
+def gen(ctx, outside=True):
     r = ctx.rng
     n = ctx.n(320, 6000)
     maxbody = ctx.n(600, 100 * 1024)
@@ -39,6 +56,14 @@ def gen(ctx):
         t = r.choice(TIMES) if r.random() < 0.6 else r.randrange(0, 253402300799)
         if r.random() < 0.3:
             t = t - (t % 86400) + 86399  # 23:59:59
+        tk = r.random() if outside else 1.0
+        if tk < 0.05:
+            t = r.choice(TIMES_FAR) if r.random() < 0.7 else r.randrange(Y10K, 10 ** 15)
+        elif tk < 0.09:
+            t = r.choice(TIMES_NEG) if r.random() < 0.7 else r.randrange(Y1000, 0)
+        elif tk < 0.13:
+            t = r.choice(TIMES_PRE1000) if r.random() < 0.7 else r.randrange(-10 ** 12, Y1000)
+        ctx.count("aws.time." + time_class(t))
         bk = r.random()
         if bk < 0.15:
             body = "NULL"
@@ -67,6 +92,18 @@ def gen(ctx):
             op = r.choice(["GetItem", "PutItem", rstr(r, UNRES, 0, hi)])
             cases.append("ddb %s %s %s %s %s %d" % (hx(key_id), hx(secret), hx(region), hx(op), body, t))
     return cases
+
+
+def time_class(t):
+    if t >= Y10K:
+        return "year>=10000.theorem_failure"
+    if t >= 0:
+        return "1970..9999.theorem"
+    if t == -1:
+        return "time_error_value.model_only"
+    if t >= Y1000:
+        return "1000..1969.spec_compared_no_theorem"
+    return "before_1000.model_only"
 
 
 def spec_case(case, impl_line):
@@ -110,7 +147,7 @@ def check_aws(ctx):
     # spec: evaluated at the returned timestamp; compare (content, authorization) / query
     scases, idx = [], []
     for i, (c, a) in enumerate(zip(cases, impl)):
-        sc = spec_case(c, a)
+        sc = None if time_class(int(c.split()[-1])).endswith("model_only") else spec_case(c, a)
         if sc:
             scases.append(sc)
             idx.append(i)
@@ -124,13 +161,18 @@ def check_aws(ctx):
             sp = s.split()
             spec[i] = "ok %s %s %s" % (sp[1], parts[2], sp[2]) if len(sp) == 3 else s
     for i, a in enumerate(impl):
-        if not a.startswith("ok"):
+        cls = time_class(int(cases[i].split()[-1]))
+        if cls.endswith("model_only"):
+            spec[i] = a
+        elif cls.endswith("theorem_failure"):
+            spec[i] = "fail"
+        elif not a.startswith("ok"):
             spec[i] = "ok <a signature was expected>"
     vlib.tri_compare(ctx, sub, cases, impl, model, spec)
     ctx.record(sub, cases, set(zip(cases, impl)),
-               "four signing variants; ids/regions/buckets/services/ops over the unreserved alphabet (0..200 chars), secrets printable ASCII, bodies absent/empty/random (block-boundary lengths), timestamps at epoch/leap-day/23:59:59/2038/year-9999 boundaries with time() returning t+k on its k-th call; non-trivial = distinct (case, result)",
+               "four signing variants; ids/regions/buckets/services/ops over the unreserved alphabet (0..200 chars), S3 paths always beginning with '/' (the request line documented in aws_sign.h; 0..3 unreserved segments or a long unreserved+'/' tail; never empty), secrets printable ASCII, bodies absent/empty/random (block-boundary lengths), timestamps at epoch/leap-day/23:59:59/2038/year-9999 boundaries with time() returning t+k on its k-th call; about 13% of the instants outside 1970..9999: year >= 10000 (failure expected, theorem), negative down to year 1000 (compared with the spec), time()'s error value -1 and years before 1000 (implementation vs model only: unpadded %Y, failure below year -999); non-trivial = distinct (case, result)",
                samples=[cases[0][:200], cases[1][:200]])
-    ctx.assumptions.append("gmtime_r/strftime/asprintf modelled for the conversions used (%Y %m %d %H %M %S, %s %d %%), years 1970..9999")
+    ctx.assumptions.append("gmtime_r/strftime/asprintf modelled for the conversions used (%Y %m %d %H %M %S, %s %d %%) as glibc implements them (%Y unpadded, strftime returns 0 when the text does not fit); theorems cover time() values 0..253402300799 (success) and 253402300800..gmtime_r's limit (failure); S3 paths begin with '/'")
 
 
 NALLOC = {"s3h": 6, "svc": 6, "ddb": 6, "s3q": 4}   # allocations per successful call (asprintf x3/4, strdup x2)
@@ -148,7 +190,7 @@ def check_aws_allocfail(ctx):
     if not exe:
         ctx.fail(sub, "build", "", "C driver does not build: " + err)
         return
-    base = gen(ctx)[:ctx.n(40, 400)]
+    base = gen(ctx, outside=False)[:ctx.n(40, 400)]
     normal, _ = vlib.run_sharded(exe, base, env={"TZ": "UTC0"})
     cases, want = [], []
     for c, nrm in zip(base, normal):
